@@ -163,6 +163,7 @@ type Router struct {
 	closingInProgressCh chan struct{}
 	closedCh            chan struct{}
 	closed              bool
+	closeErr            error
 	closedLock          sync.Mutex
 
 	logger watermill.LoggerAdapter
@@ -586,7 +587,8 @@ func (r *Router) Close() error {
 		verifhook.At("router.life.close.already")
 		verifhook.At("router.close.already_closed")
 		r.logger.Debug("Already closed", nil)
-		return nil
+		// a previous Close that timed out has not waited for all handlers: don't report success
+		return r.closeErr
 	}
 
 	r.logger.Debug("Running Close()", nil)
@@ -606,7 +608,8 @@ func (r *Router) Close() error {
 	verifhook.At("router.life.close.waited", fmt.Sprint(timedout))
 	verifhook.At("router.close.waited", fmt.Sprint(timedout))
 	if timedout {
-		return errors.New("router close timeout")
+		r.closeErr = errors.New("router close timeout")
+		return r.closeErr
 	}
 
 	return nil
